@@ -219,7 +219,7 @@ func (c *ExpressionParser) performParsing() error {
 
 		if c.hasMoreTokens() {
 			token := c.getCurrentToken()
-			err = errors.NewSyntaxError("", errors.ErrErrorNear, "Syntax error near "+token.Value().AsString(), token.Line(), token.Column())
+			err = errors.NewSyntaxError("", errors.ErrErrorNear, "Syntax error near "+token.Value().String(), token.Line(), token.Column())
 			return err
 		}
 	}
@@ -635,7 +635,7 @@ func (c *ExpressionParser) performSyntaxAnalysisAtLevel6() error {
 		c.addTokenToResult(Constant, variants.VariantFromInteger(paramCount), primitiveToken.Line(), primitiveToken.Column())
 		c.addTokenToResult(primitiveToken.Type(), primitiveToken.Value(), primitiveToken.Line(), primitiveToken.Column())
 	} else {
-		err = errors.NewSyntaxError("", errors.ErrErrorAt, "Syntax error at "+primitiveToken.Value().AsString(), primitiveToken.Line(), primitiveToken.Column())
+		err = errors.NewSyntaxError("", errors.ErrErrorAt, "Syntax error at "+primitiveToken.Value().String(), primitiveToken.Line(), primitiveToken.Column())
 		return err
 	}
 
